@@ -108,6 +108,14 @@ CHECKS = {
 }
 PENDING = {}   # id -> reason (not_applicable)
 
+# round 8: additions to the technique text (appended)
+CLI = " + CliFlow.tla (command-line dataflow state machine, model-checked with 10 seeded plumbing slips rejected): TLC-generated option vectors replayed into the real mokapot.mokapot.main() with recording stand-ins for the stages, judged by CliFlowTrace.tla (the P: clauses of this property; other clauses are DRIFT)"
+LIVE = " + liveness of the implementation-shaped module(s) (PROPERTY Halts of FairSpec = Spec /\\ WF_vars(Next), <Module>_live.cfg)"
+EXTRA = {"C02": CLI + LIVE, "C03": CLI + LIVE, "C07": CLI + LIVE, "C08": CLI,
+         "C12": " + ModelLife.tla (life cycle of a Model object: every fit / predict / save / load_model sequence, three seeded slips rejected): TLC-generated behaviours replayed into a real mokapot.Model, answers judged by ModelLifeTrace.tla" + LIVE}
+for _i in ("C01", "C09", "C10", "C11", "C13", "C14", "C15", "C16", "C17", "C18", "C19", "C20"):
+    EXTRA[_i] = LIVE
+
 def main():
     props = [json.loads(l) for l in open(os.path.join(HERE, "properties.jsonl"))]
     checks, na = [], []
@@ -115,6 +123,7 @@ def main():
         i = p["id"]
         if i in CHECKS:
             lvl, tech, text, note, ref = CHECKS[i]
+            tech = tech + EXTRA.get(i, "")
             checks.append({
                 "property_id": i,
                 "quick_cmd": "./check %s --tier quick" % i,
